@@ -190,6 +190,9 @@ func init() {
 		"vDeepEqual": func(m *Machine, f *Frame, a []value) (value, bool) {
 			return m.deepEqual(a[0], a[1], 0, map[[2]*Object]bool{}), true
 		},
+		"vSameWire": func(m *Machine, f *Frame, a []value) (value, bool) {
+			return m.codecSameWire(a[0].(Iface), a[1].(Iface)), true
+		},
 		"vMapOrderNondet": func(m *Machine, f *Frame, a []value) (value, bool) {
 			old := m.mapOrderNondet
 			m.undoLog(func() { m.mapOrderNondet = old })
